@@ -463,32 +463,42 @@ fn err_name(e: Error) -> &'static str {
     }
 }
 
-/// Execute the sequential prefix on a fresh allocator (raw calls, no gates). Returns the allocator.
-fn setup(sc: &Scen) -> Result<Sut, String> {
-    let s = Sut::new(sc.frames, sc.init, &sc.cfg, default_place(sc.seed)).map_err(|e| format!("construction: {e:?}"))?;
+/// Execute the sequential prefix on a freshly initialised allocator (raw calls, no gates).
+/// The buffers of a previous run of the same scenario are re-used (re-initialised in place).
+fn setup(sc: &Scen, cache: &mut Option<Sut>) -> Result<Sut, String> {
+    let s = match cache.take() {
+        Some(mut s) if s.frames == sc.frames && s.cfg.name == sc.cfg.name && s.cfg.classes == sc.cfg.classes => {
+            s.reinit(sc.init).map_err(|e| format!("re-initialisation: {e:?}"))?;
+            s
+        }
+        _ => Sut::new(sc.frames, sc.init, &sc.cfg, default_place(sc.seed)).map_err(|e| format!("construction: {e:?}"))?,
+    };
     {
         let a = s.a();
         for op in &sc.prefix {
             use crate::ops::Op;
-            let ok = match op {
-                Op::Get { order, class, slot } => a.get(None, sc.cfg.request(*order, *class, *slot)).is_ok(),
-                Op::GetAt { frame, order, class, slot } => a.get(Some(FrameId(*frame)), sc.cfg.request(*order, *class, *slot)).is_ok(),
-                Op::Put { frame, order, class, slot } => a.put(FrameId(*frame), sc.cfg.request(*order, *class, *slot)).is_ok(),
-                Op::Drain => {
-                    a.drain();
-                    true
-                }
-                _ => true,
-            };
-            let _ = ok;
+            match op {
+                Op::Get { order, class, slot } => drop(a.get(None, sc.cfg.request(*order, *class, *slot))),
+                Op::GetAt { frame, order, class, slot } => drop(a.get(Some(FrameId(*frame)), sc.cfg.request(*order, *class, *slot))),
+                Op::Put { frame, order, class, slot } => drop(a.put(FrameId(*frame), sc.cfg.request(*order, *class, *slot))),
+                Op::Drain => a.drain(),
+                _ => {}
+            }
         }
     }
     Ok(s)
 }
 
-pub fn run_once(sc: &Scen, strategy: &Strategy, rc: &RunCfg) -> RunOut {
+/// Buffers kept between the runs of one scenario
+#[derive(Default)]
+pub struct RunCache {
+    sut: Option<Sut>,
+    scratch: Option<Sut>,
+}
+
+pub fn run_once(sc: &Scen, strategy: &Strategy, rc: &RunCfg, cache: &mut RunCache) -> RunOut {
     let mut out = RunOut::default();
-    let s = match catch(|| setup(sc)) {
+    let s = match catch(|| setup(sc, &mut cache.sut)) {
         Ok(Ok(s)) => s,
         Ok(Err(e)) => {
             out.harness_error = Some(e);
@@ -526,7 +536,11 @@ pub fn run_once(sc: &Scen, strategy: &Strategy, rc: &RunCfg) -> RunOut {
         _ => Vec::new(),
     };
     let crash = if rc.crash_every > 0 {
-        Sut::new(sc.frames, Init::FreeAll, &sc.cfg, default_place(sc.seed ^ 1)).ok().map(|scratch| CrashCfg {
+        let scratch = match cache.scratch.take() {
+            Some(x) if x.frames == sc.frames && x.cfg.classes == sc.cfg.classes => Some(x),
+            _ => Sut::new(sc.frames, Init::FreeAll, &sc.cfg, default_place(sc.seed ^ 1)).ok(),
+        };
+        scratch.map(|scratch| CrashCfg {
             scratch,
             lo: s.lower.addr(),
             len: s.lower.len(),
@@ -580,7 +594,10 @@ pub fn run_once(sc: &Scen, strategy: &Strategy, rc: &RunCfg) -> RunOut {
     let ok_gets = AtomicUsize::new(0);
     let failed_gets = AtomicUsize::new(0);
     let a = s.a();
-    std::thread::scope(|scope| {
+    let pool = crate::pool::global();
+    *sh.handles.lock().unwrap() = pool.threads.iter().take(n).cloned().map(Some).collect();
+    {
+        let mut jobs: Vec<Box<dyn FnOnce() + Send + '_>> = Vec::new();
         for t in 0..n {
             let sh = sh.clone();
             let prog = sc.progs[t].clone();
@@ -588,8 +605,7 @@ pub fn run_once(sc: &Scen, strategy: &Strategy, rc: &RunCfg) -> RunOut {
             let frames = sc.frames;
             let mut mine: Vec<(Block, u8)> = sc.holdings.iter().filter(|h| h.2 == t).map(|h| (h.0, h.1)).collect();
             let (calls, ok_gets, failed_gets) = (&calls, &ok_gets, &failed_gets);
-            scope.spawn(move || {
-                sh.handles.lock().unwrap()[t] = Some(std::thread::current());
+            jobs.push(Box::new(move || {
                 sh.wait_turn(t);
                 let mut sink = GateSink { me: t, sh: sh.clone() };
                 'prog: for op in prog {
@@ -748,15 +764,10 @@ pub fn run_once(sc: &Scen, strategy: &Strategy, rc: &RunCfg) -> RunOut {
                 } else {
                     sh.main.unpark();
                 }
-            });
+            }));
         }
-        // wait until every worker registered, then hand the token to the first thread
-        loop {
-            if sh.handles.lock().unwrap().iter().all(|h| h.is_some()) {
-                break;
-            }
-            std::thread::yield_now();
-        }
+        let running = pool.start(jobs);
+        // hand the token to the first thread
         let first = sh.st.lock().unwrap().decide(MAIN, false);
         sh.pass(first);
         // wait for the token to come back (all done) or abort
@@ -772,7 +783,9 @@ pub fn run_once(sc: &Scen, strategy: &Strategy, rc: &RunCfg) -> RunOut {
         if sh.abort.load(Ordering::SeqCst) {
             sh.abort_all();
         }
-    });
+        running.wait();
+    }
+    drop(pool);
     let mut st = sh.st.lock().unwrap();
     out.gates = st.total_gates;
     out.switches = st.switches;
@@ -832,5 +845,8 @@ pub fn run_once(sc: &Scen, strategy: &Strategy, rc: &RunCfg) -> RunOut {
         }
     }
     let _ = TREE_FRAMES;
+    cache.scratch = st.crash.take().map(|c| c.scratch);
+    drop(st);
+    cache.sut = Some(s);
     out
 }
